@@ -4,7 +4,9 @@
 package codec
 
 import (
+	"bytes"
 	"math"
+	"unsafe"
 
 	"github.com/CrowdStrike/csproto"
 	"google.golang.org/protobuf/encoding/protowire"
@@ -139,6 +141,28 @@ type Packed struct {
 	Dec  func(d *csproto.Decoder) ([]uint64, error)
 }
 
+// kept hands the encoder a slice with spare capacity behind it and panics if the call changed the slice it was given or
+// wrote into the capacity behind it: an encoder reads its arguments (compared as raw memory, so NaN payloads count).
+func kept[T any](ts []T, call func(a []T)) {
+	const spare = 4
+	arena := make([]T, len(ts)+spare)
+	copy(arena, ts)
+	for i := 0; i < spare && len(ts) > 0; i++ {
+		arena[len(ts)+i] = ts[i%len(ts)]
+	}
+	raw := func() []byte {
+		if len(arena) == 0 {
+			return nil
+		}
+		return unsafe.Slice((*byte)(unsafe.Pointer(&arena[0])), len(arena)*int(unsafe.Sizeof(arena[0])))
+	}
+	before := append([]byte{}, raw()...)
+	call(arena[:len(ts)])
+	if !bytes.Equal(before, raw()) {
+		panic("the encoder modified the slice it was given (or the capacity behind it)")
+	}
+}
+
 func conv[T any](vs []uint64, f func(uint64) T) []T {
 	out := make([]T, len(vs))
 	for i, v := range vs {
@@ -161,7 +185,7 @@ func back[T any](vs []T, f func(T) uint64) []uint64 {
 var Packeds = []Packed{
 	{"packed_bool", "bool",
 		func(e *csproto.Encoder, tag int, vs []uint64) {
-			e.EncodePackedBool(tag, conv(vs, func(u uint64) bool { return u != 0 }))
+			kept(conv(vs, func(u uint64) bool { return u != 0 }), func(a []bool) { e.EncodePackedBool(tag, a) })
 		},
 		func(d *csproto.Decoder) ([]uint64, error) {
 			v, err := d.DecodePackedBool()
@@ -174,7 +198,7 @@ var Packeds = []Packed{
 		}},
 	{"packed_int32", "int32",
 		func(e *csproto.Encoder, tag int, vs []uint64) {
-			e.EncodePackedInt32(tag, conv(vs, func(u uint64) int32 { return int32(u) }))
+			kept(conv(vs, func(u uint64) int32 { return int32(u) }), func(a []int32) { e.EncodePackedInt32(tag, a) })
 		},
 		func(d *csproto.Decoder) ([]uint64, error) {
 			v, err := d.DecodePackedInt32()
@@ -182,7 +206,7 @@ var Packeds = []Packed{
 		}},
 	{"packed_int64", "int64",
 		func(e *csproto.Encoder, tag int, vs []uint64) {
-			e.EncodePackedInt64(tag, conv(vs, func(u uint64) int64 { return int64(u) }))
+			kept(conv(vs, func(u uint64) int64 { return int64(u) }), func(a []int64) { e.EncodePackedInt64(tag, a) })
 		},
 		func(d *csproto.Decoder) ([]uint64, error) {
 			v, err := d.DecodePackedInt64()
@@ -190,18 +214,20 @@ var Packeds = []Packed{
 		}},
 	{"packed_uint32", "uint32",
 		func(e *csproto.Encoder, tag int, vs []uint64) {
-			e.EncodePackedUInt32(tag, conv(vs, func(u uint64) uint32 { return uint32(u) }))
+			kept(conv(vs, func(u uint64) uint32 { return uint32(u) }), func(a []uint32) { e.EncodePackedUInt32(tag, a) })
 		},
 		func(d *csproto.Decoder) ([]uint64, error) {
 			v, err := d.DecodePackedUint32()
 			return back(v, func(x uint32) uint64 { return uint64(x) }), err
 		}},
 	{"packed_uint64", "uint64",
-		func(e *csproto.Encoder, tag int, vs []uint64) { e.EncodePackedUInt64(tag, vs) },
+		func(e *csproto.Encoder, tag int, vs []uint64) {
+			kept(append([]uint64{}, vs...), func(a []uint64) { e.EncodePackedUInt64(tag, a) })
+		},
 		func(d *csproto.Decoder) ([]uint64, error) { return d.DecodePackedUint64() }},
 	{"packed_sint32", "sint32",
 		func(e *csproto.Encoder, tag int, vs []uint64) {
-			e.EncodePackedSInt32(tag, conv(vs, func(u uint64) int32 { return int32(u) }))
+			kept(conv(vs, func(u uint64) int32 { return int32(u) }), func(a []int32) { e.EncodePackedSInt32(tag, a) })
 		},
 		func(d *csproto.Decoder) ([]uint64, error) {
 			v, err := d.DecodePackedSint32()
@@ -209,7 +235,7 @@ var Packeds = []Packed{
 		}},
 	{"packed_sint64", "sint64",
 		func(e *csproto.Encoder, tag int, vs []uint64) {
-			e.EncodePackedSInt64(tag, conv(vs, func(u uint64) int64 { return int64(u) }))
+			kept(conv(vs, func(u uint64) int64 { return int64(u) }), func(a []int64) { e.EncodePackedSInt64(tag, a) })
 		},
 		func(d *csproto.Decoder) ([]uint64, error) {
 			v, err := d.DecodePackedSint64()
@@ -217,18 +243,20 @@ var Packeds = []Packed{
 		}},
 	{"packed_fixed32", "fixed32",
 		func(e *csproto.Encoder, tag int, vs []uint64) {
-			e.EncodePackedFixed32(tag, conv(vs, func(u uint64) uint32 { return uint32(u) }))
+			kept(conv(vs, func(u uint64) uint32 { return uint32(u) }), func(a []uint32) { e.EncodePackedFixed32(tag, a) })
 		},
 		func(d *csproto.Decoder) ([]uint64, error) {
 			v, err := d.DecodePackedFixed32()
 			return back(v, func(x uint32) uint64 { return uint64(x) }), err
 		}},
 	{"packed_fixed64", "fixed64",
-		func(e *csproto.Encoder, tag int, vs []uint64) { e.EncodePackedFixed64(tag, vs) },
+		func(e *csproto.Encoder, tag int, vs []uint64) {
+			kept(append([]uint64{}, vs...), func(a []uint64) { e.EncodePackedFixed64(tag, a) })
+		},
 		func(d *csproto.Decoder) ([]uint64, error) { return d.DecodePackedFixed64() }},
 	{"packed_sfixed32", "sfixed32",
 		func(e *csproto.Encoder, tag int, vs []uint64) {
-			e.EncodePackedSFixed32(tag, conv(vs, func(u uint64) int32 { return int32(u) }))
+			kept(conv(vs, func(u uint64) int32 { return int32(u) }), func(a []int32) { e.EncodePackedSFixed32(tag, a) })
 		},
 		func(d *csproto.Decoder) ([]uint64, error) {
 			v, err := d.DecodePackedFixed32()
@@ -236,7 +264,7 @@ var Packeds = []Packed{
 		}},
 	{"packed_sfixed64", "sfixed64",
 		func(e *csproto.Encoder, tag int, vs []uint64) {
-			e.EncodePackedSFixed64(tag, conv(vs, func(u uint64) int64 { return int64(u) }))
+			kept(conv(vs, func(u uint64) int64 { return int64(u) }), func(a []int64) { e.EncodePackedSFixed64(tag, a) })
 		},
 		func(d *csproto.Decoder) ([]uint64, error) {
 			v, err := d.DecodePackedFixed64()
@@ -244,7 +272,7 @@ var Packeds = []Packed{
 		}},
 	{"packed_float", "float",
 		func(e *csproto.Encoder, tag int, vs []uint64) {
-			e.EncodePackedFloat32(tag, conv(vs, func(u uint64) float32 { return math.Float32frombits(uint32(u)) }))
+			kept(conv(vs, func(u uint64) float32 { return math.Float32frombits(uint32(u)) }), func(a []float32) { e.EncodePackedFloat32(tag, a) })
 		},
 		func(d *csproto.Decoder) ([]uint64, error) {
 			v, err := d.DecodePackedFloat32()
@@ -252,7 +280,7 @@ var Packeds = []Packed{
 		}},
 	{"packed_double", "double",
 		func(e *csproto.Encoder, tag int, vs []uint64) {
-			e.EncodePackedFloat64(tag, conv(vs, func(u uint64) float64 { return math.Float64frombits(u) }))
+			kept(conv(vs, func(u uint64) float64 { return math.Float64frombits(u) }), func(a []float64) { e.EncodePackedFloat64(tag, a) })
 		},
 		func(d *csproto.Decoder) ([]uint64, error) {
 			v, err := d.DecodePackedFloat64()
